@@ -286,6 +286,36 @@ def rule_determinism_map(ctx: Ctx) -> None:
                 if b.raises:
                     continue
                 outs = _outcome_constants(b.body, det, lit)
+                # a forced outcome is taken unless its probability is (numerically) zero: polarity and index of the test, on its truth table
+                if lit in (0, 1):
+                    from ..boolform import Table as _Table
+                    for gi in [x for st_ in b.body for x in ast.walk(st_) if isinstance(x, ast.If) and "isclose" in norm(x.test)]:
+                        tb_ = _Table()
+                        f_ = tb_.formula(gi.test, {})
+                        keys_ = [k for k in tb_.atoms if "probs[" in k or "prob" in k]
+                        if len(tb_.atoms) != 1 or not keys_:
+                            continue
+                        k_ = keys_[0]
+                        import re as _re
+                        mi = _re.search(r"\[(\w+)\]", k_)
+                        idx_txt = mi.group(1) if mi else "?"
+                        idx_val = lit if idx_txt == det else (int(idx_txt) if idx_txt.isdigit() else None)
+
+                        def arm_val(stmts):
+                            vs = [a.value for st2 in stmts for a in ast.walk(st2) if isinstance(a, ast.Assign) and any(isinstance(t, ast.Name) and "outcome" in t.id for t in a.targets)]
+                            o = _outcome_constants(stmts, det, lit)
+                            return o["first"]
+                        when_zero = arm_val(gi.body if f_({k_: True}) else gi.orelse)
+                        when_pos = arm_val(gi.body if f_({k_: False}) else gi.orelse)
+                        if idx_val != lit:
+                            ctx.fail("sibling.determinism-map", m, gi.test, f"{q}: with determinism setting {lit!r} the test looks at the probability of outcome {idx_txt}, "
+                                     f"not of the requested outcome", construct=f"{q}: {lit!r} tests probability of {idx_txt}", func=q)
+                        elif when_pos != lit or when_zero != 1 - lit:
+                            ctx.fail("sibling.determinism-map", m, gi.test, f"{q}: with determinism setting {lit!r} the outcome is {when_pos} when it is possible and "
+                                     f"{when_zero} when its probability is zero; it must be {lit} unless impossible, then {1 - lit}",
+                                     construct=f"{q}: {lit!r} -> possible {when_pos} / impossible {when_zero}", func=q)
+                        else:
+                            ctx.ok("sibling.determinism-map", m, gi.test, what=f"{q}: {lit!r} taken unless its probability is zero")
                 stray = sorted(v for v in outs["values"] if v not in (0, 1))
                 if stray and lit != "probabilistic":
                     ctx.fail("sibling.determinism-map", m, b.node,
@@ -668,6 +698,8 @@ def _swap_first(a: str, b: str):
 
 
 KNOCKOUTS = [
+    Knockout("dm-forced-one-test-inverted", "graphiq/backends/density_matrix/state.py", sub_once("                if not np.isclose(probs[1], 0.0):", "                if np.isclose(probs[1], 0.0):"), "sibling.determinism-map", "possible"),
+    Knockout("dm-forced-zero-tests-other-probability", "graphiq/backends/density_matrix/state.py", sub_once("                if not np.isclose(probs[0], 0.0):", "                if not np.isclose(probs[1], 0.0):"), "sibling.determinism-map", "tests probability"),
     Knockout("dm-basis-bit-lsb-first", "graphiq/backends/density_matrix/functions.py", sub_once("def projectors_zbasis(n_qubits, measure_register):", "def _both_one(n_qubits, control_qubit, target_qubit):\n    basis_states = np.arange(2**n_qubits)\n    return (basis_states >> control_qubit) & (basis_states >> target_qubit) & 1\n\n\ndef projectors_zbasis(n_qubits, measure_register):"), "index.bit-order", "_both_one"),
     Knockout("dm-forced-outcome-fallback-minus-one", "graphiq/backends/density_matrix/state.py", sub_once("                if not np.isclose(probs[0], 0.0):\n                    outcome = 0\n                else:\n                    outcome = 1\n", "                outcome = int(measurement_determinism)\n                if np.isclose(probs[outcome], 0.0):\n                    outcome = outcome - 1\n"), "sibling.determinism-map", "outcome can become"),
     Knockout("prim-cnot-x-direction", "graphiq/backends/stabilizer/functions/transformation.py", sub_once("    tableau.table = add_columns(tableau.table, ctrl_qubit, target_qubit)\n", "    tableau.table = add_columns(tableau.table, target_qubit, ctrl_qubit)\n"), "prim.formula", "cnot_gate"),
